@@ -1,6 +1,5 @@
 PROP = dict(
     id="C26",
-    disabled=True,
     engines=["c26"],
     go_tags=["c26"],
     lean_modules=["MM.Props.C26"],
